@@ -308,6 +308,12 @@ func runC05(p *core.Program, r *core.Report) {
 	runPairs(p, x, r, pairs, pairRules{"C05.bodies", "C05.fields", "C05.countlink"}, 6)
 
 	c05Frame(p, r, "C05.frame", false)
+	// the frames reach the socket as one stream of whole frames (shared with C06.single-writer)
+	if pk := p.Pkg("net/oneway"); pk != nil {
+		if tn, _ := pk.Types.Scope().Lookup("OneWayTcpClient").(*types.TypeName); tn != nil {
+			oneChannelToSocket(p, r, "C05.frame", tn.Type().(*types.Named))
+		}
+	}
 	c05TagHash(p, r, "C05.taghash")
 	c05HashGuard(p, r, "C05.taghash")
 	// the variable-length encodings the bodies are made of (same rules as C01, reported under C05:
